@@ -23,7 +23,7 @@ D1 = {"n": 6, "tag": 141}
 D2 = {"n": 21, "tag": 142}
 K, K2, K3 = "k-main", "k-oneshot", "k-linked"
 
-ACTIONS = ["W1", "W2", "W3", "WH", "WBAD", "WBADI", "WMULTI", "WOTHER", "WHDEC", "R", "RH", "ST", "M", "L", "E", "CP", "CPU", "HL", "RM", "RMH", "RF", "CL", "LK", "DFLIP", "DTRUNC", "DUTF8", "DTORN", "DSHORT", "DDIR"]
+ACTIONS = ["W1", "W2", "W3", "WH", "WBAD", "WBADI", "WMULTI", "WOTHER", "WHDEC", "R", "RH", "ST", "M", "L", "E", "CP", "CPU", "HL", "RM", "RMH", "RF", "CL", "LK", "DFLIP", "DTRUNC", "DUTF8", "DTORN", "DSHORT", "DBADSRI", "DDIR"]
 MIXED = ["W1", "W2", "WH", "R", "M", "L", "RM", "RF", "DUTF8", "ST", "W3"]
 
 
@@ -148,6 +148,12 @@ def do_action(srv, side, cache, aux, act):
         if os.path.isfile(cp) and not os.path.islink(cp):
             with open(cp, "r+b") as fh:
                 fh.truncate(D1["n"] - 1)
+        return []
+    if act == "DBADSRI":
+        # a checksum-valid record for K whose integrity cannot name a content file, after whatever is there
+        if os.path.isfile(bp):
+            with open(bp, "ab") as fh:
+                fh.write(ref.encode_record({"key": K, "integrity": "sha256-AA==", "time": 10, "size": 1, "metadata": None, "raw_metadata": None}))
         return []
     if act in ("DUTF8", "DTORN", "DSHORT"):
         if os.path.isfile(bp):
@@ -309,7 +315,7 @@ def main(tier, seed=0):
     for i in range(0, len(progs), chunk):
         jobs.append({"kind": "mixed", "programs": progs[i:i + chunk]})
     return run.run_check(PROP, tier, jobs, worker, level="model_checking",
-                         rule="lock-step: tree of all programs up to the length bound over 25 actions (9 writes/rejections, 6 reads/lookups, 3 extractions, 4 removals, link_to, 5 damage steps), "
+                         rule="lock-step: tree of all programs up to the length bound over %d actions (writes with options / chunked / one-shot / by address / rejected / multi-hash / other-algorithm integrity, reads and lookups, extractions, removals, link_to, %d damage steps), " % (len(ACTIONS), sum(1 for a in ACTIONS if a.startswith("D"))) +
                               "executed on three caches by the three flavour builds, node = triple of decoded trees (de-duplicated), every step compares the normalised replies and the decoded "
                               "trees pairwise with the sync flavour; mixed: every program up to its bound over 11 actions x every flavour assignment phi in {S,A,T}^len on one shared cache, "
                               "compared with the pure-sync run; states = distinct state triples, evaluations = program steps / assignments executed",
